@@ -15,7 +15,9 @@ import PyamgV.Model.ExtC11XGmres
     `bsr <rows> <cols> <br> <bc> <ap> <aj> <ax>`; answer `rows,cols,bs;indptr;indices;data`
 `ext_c11x_gmres <A> <b> <maxiter> <precondition>`
     `dense_GMRES` on binary64 (`C11XG.denseGmresFloat`); `A` by rows (`;`), numbers = bit patterns written
-    as decimal integers; answer = bit patterns of `x`, `bad-size` when the shapes do not fit -/
+    as decimal integers; answer = bit patterns of `x`, then `;` and the stored subdiagonal entries `H[j+1, j]` of the
+    run (`C11XG.denseGmresTrace`; a tiny non-zero entry = Krylov space exhausted up to rounding), `bad-size` when the
+    shapes do not fit -/
 namespace PyamgV.Drv.ExtE49
 open PyamgV PyamgV.Drv
 
@@ -65,7 +67,9 @@ def handle : List String → Option String
     | _ => none
   | ["ext_c11x_gmres", a, b, maxiter, pc] =>
     some <| match C11XG.denseGmresFloat (fmat a) (parseFloats b).toList (nat maxiter) (pc == "1") with
-      | some x => sh (x.map fun f => toString f.toBits.toNat)
+      | some x => sh (x.map fun f => toString f.toBits.toNat) ++ ";" ++
+          sh ((C11XG.denseGmresTraceFloat (fmat a) (parseFloats b).toList (nat maxiter) (pc == "1")).map
+            fun f => toString f.toBits.toNat)
       | none => "bad-size"
   | _ => none
 
